@@ -685,8 +685,10 @@ def c13(ctx):
                 "graphs sharing triples, literals of all value classes; queries of depth <= 3 built DIRECTLY as spargebra algebra, run on Vec/FastDataset/LightDataset; bags of rows over the in-scope variables compared by TLC; "
                 "27 unsupported constructs must answer NotImplemented. distinct = (dataset, query) pairs with a non-empty answer" % n)
     ctx.rule += ("; expression fragment also: != > <= >=, + - * on integers, sameTerm, IF, COALESCE, isBlank/isLiteral/isNumeric, STR/LANG/DATATYPE, STRLEN/UCASE/LCASE/SUBSTR/CONCAT, STRSTARTS/STRENDS/CONTAINS, "
-                 "the numeric tower of SparqlNum.tla (exact decimal expansions); every function on every tuple of constants of the universe; integer constants also written (c + B) - B with B beyond 64 bits")
-    ctx.assumptions += ["quoted-triple patterns are not in the modelled fragment", "(c + B) - B = c for xsd:integer (exact arithmetic, XPath op:numeric-add/subtract): the model is given c, the engine the long form"]
+                 "the numeric tower of SparqlNum.tla (exact decimal expansions), xsd:dateTime with XML Schema's order relation (offsets, no timezone, 14-hour rule, ill-formed values); "
+                 "every function on every tuple of constants of the universe; integer constants also written (c + B) - B with B beyond 64 bits; quoted-triple patterns (nested, sharing variables and placeholders with the group), "
+                 "one query in six aimed at the data's quoted triples. Where SPARQL 17.3.1 lets an implementation replace an operator's type error by a value (three named extension points), the answer is accepted under any reading")
+    ctx.assumptions += ["(c + B) - B = c for xsd:integer (exact arithmetic, XPath op:numeric-add/subtract): the model is given c, the engine the long form"]
 
 
 def c14(ctx):
